@@ -319,6 +319,11 @@ def run(ctx):
     ctx.ob("C11.R1", "ExprMixin", not other, "ExprMixin defines no operator method outside the table (%s)" % sorted(other), key="no extras", loc=EXPR)
     al = mix.aliases
     ctx.ob("C11.R1", "ExprMixin", set(al) <= {"__div__", "__rdiv__", "__inv__"}, "class-level aliases are the documented ones (%s)" % sorted(al.items()), key="aliases", loc=EXPR)
+    for sub_cls in ("BinExpr", "UniExpr", "Path", "Path2", "FuncPath"):
+        over = [d for d in list(BINARY_DUNDERS) + list(UNARY_DUNDERS) + list(DUNDER_DEVIATIONS) if d in M.cls(sub_cls).methods]
+        over += [a for a in M.cls(sub_cls).assigns if a in BINARY_DUNDERS or a in UNARY_DUNDERS or a in DUNDER_DEVIATIONS]
+        ctx.ob("C11.R1", sub_cls, not over, "%s inherits every operator from ExprMixin (an override would give expressions of this kind their own operator semantics; found %s)" % (sub_cls, over),
+               key="%s no operator override" % sub_cls, loc=EXPR)
     ctx.floor("C11.R1", 33)
 
     # ---------------------------------------------------------------- R2
@@ -389,6 +394,10 @@ def run(ctx):
     for op in un_ops:
         inner.append(("uni:" + op, U(op, P)))
     inner += leaves
+    # helpers applied to compound expressions (every nesting of helper and operator)
+    inner.append(("func of bin", mk("func", func="abs", operand=B("sub", P, 5))))
+    inner.append(("func of nested bin", mk("func", func="abs", operand=B("mul", B("sub", P, 3), B("add", P, 1)))))
+    inner.append(("func of uni", mk("func", func="len", operand=U("neg", P))))
     trees = []
     for op in bin_ops:
         for name, x in inner:
